@@ -236,7 +236,70 @@ def rule_cmds(ctx):
     ctx.require(n >= 5, 'C14.cmds', f'only {n} commands in event.py')
 
 
+ROUNDERS = {'round', 'roundup', 'trunc', 'int', 'floor', 'ceil', 'rint'}
+
+
+def accumulators(fnode):
+    """Loop-carried running sums: a local X assigned inside a loop from an expression that (through single-assignment
+    temporaries) contains `X + ...`.  Returns {X: [expression chain nodes feeding X]}."""
+    loops = [n for n in walk_local(fnode) if isinstance(n, (ast.While, ast.For))]
+    out = {}
+    for lp in loops:
+        assigns = [n for n in ast.walk(lp) if isinstance(n, ast.Assign) and len(n.targets) == 1 and isinstance(n.targets[0], ast.Name)]
+        defs = {}
+        for a in assigns:
+            defs.setdefault(a.targets[0].id, []).append(a.value)
+        for a in ast.walk(lp):
+            if isinstance(a, ast.AugAssign) and isinstance(a.target, ast.Name) and isinstance(a.op, ast.Add):
+                out.setdefault(a.target.id, []).append(a.value)
+        for x, vals in defs.items():
+            for v in vals:
+                chain = [v]
+                seen = {x}
+                work = [v]
+                selfref = False
+                while work:
+                    e = work.pop()
+                    for n in ast.walk(e):
+                        if isinstance(n, ast.Name):
+                            if n.id == x and any(isinstance(b, ast.BinOp) and isinstance(b.op, ast.Add) and n in ast.walk(b) for b in ast.walk(e)):
+                                selfref = True
+                            elif n.id in defs and n.id not in seen and len(defs[n.id]) == 1:
+                                seen.add(n.id)
+                                chain.append(defs[n.id][0])
+                                work.append(defs[n.id][0])
+                if selfref:
+                    out.setdefault(x, []).extend(chain)
+    return out
+
+
+def rule_accum(ctx, rid='C14.accum', modules=None, least=4):
+    ctx.rule(rid, 'running sums carried around a loop in the pattern library (elapsed time, constrained sums, Ppar/Ptpar clocks) '
+                  'are never assigned a rounded or truncated value: tolerance rounding may be used to compare, not to accumulate')
+    n = 0
+    for mname, m in sorted(ctx.repo.modules.items()):
+        if not mname.startswith('sc3.seq'):
+            continue
+        if modules is not None and mname not in modules:
+            continue
+        for fi in m.functions.values():
+            for x, chain in sorted(accumulators(fi.node).items()):
+                n += 1
+                bad = []
+                for e in chain:
+                    for c in ast.walk(e):
+                        if isinstance(c, ast.Call):
+                            nm = (U.call_name(c) or '').split('.')[-1]
+                            if nm in ROUNDERS:
+                                bad.append(norm(c))
+                ctx.ob(rid, f'{fi.fq}:accumulator[{x}]', not bad,
+                       f'the running sum `{x}` is fed from {bad}: each pass adds a rounding error, so the total drifts from the sum of '
+                       f'the deltas (the cut-off lands early/late and the remaining time is wrong)', fi.node, m)
+    ctx.require(n >= least, rid, f'only {n} loop-carried sums found')
+
+
 def run(ctx):
+    rule_accum(ctx)
     rule_note(ctx)
     rule_keys(ctx)
     rule_rest(ctx)
@@ -245,6 +308,9 @@ def run(ctx):
 
 
 MUTANTS = [
+    dict(rule='C14.accum', name='Pdur accumulates the rounded elapsed time (seed C14-b)', file='sc3/seq/patterns/filterpatterns.py',
+         old="                next_elapsed = elapsed + float(delta)\n                if bi.roundup(next_elapsed, tolerance) >= local_dur:",
+         new="                next_elapsed = bi.roundup(elapsed + float(delta), tolerance)\n                if next_elapsed >= local_dur:"),
     dict(rule='C14.note', name='second unconditional /n_set', file='sc3/seq/event.py',
          old="        if self('send_gate'):\n            server.addr.send_bundle(\n                server.latency + self('sustain'),\n                ['/n_set', node_id, 'gate', 0])",
          new="        server.addr.send_bundle(\n            server.latency + self('sustain'),\n            ['/n_set', node_id, 'gate', 0])"),
